@@ -656,6 +656,37 @@ def rule_ctor(ctx, M):
         bs = P.strip(b)
         if not (bs == ("field", ("deref", ("param", 1)), board_field) or bs == ("field", ("param", 1), board_field)):
             problems.append(f"the iterator's board is {P.show(b)[:80]}, not the evaluator's board as given")
+        # .. and the copy is not touched between being taken and being stored (flow-insensitive provenance would not see
+        # a `sort` through `&mut board[..3]`): no mutable borrow of, or store into, the local that becomes the board field
+        for bi_, blk_ in enumerate(fn.blocks):
+            if bi_ not in fn.cfg.reachable:
+                continue
+            for s_ in blk_["stmts"]:
+                if s_["k"] != "assign" or not ("agg" in s_["rv"] and isinstance(s_["rv"]["agg"], dict) and s_["rv"]["agg"].get("adt") == M.iter_ty):
+                    continue
+                op_ = s_["rv"]["ops"][M.f_board]
+                pl_ = op_.get("move") or op_.get("copy")
+                roots = set()
+                while pl_ and not pl_["proj"] and pl_["l"] not in roots:
+                    roots.add(pl_["l"])
+                    ds_ = pr.defs.get(pl_["l"], [])
+                    nxt_ = None
+                    if len(ds_) == 1 and ds_[0][2] == "rv" and "use" in ds_[0][3]:
+                        nxt_ = ds_[0][3]["use"].get("move") or ds_[0][3]["use"].get("copy")
+                    pl_ = nxt_
+                for b2_, blk2_ in enumerate(fn.blocks):
+                    if b2_ not in fn.cfg.reachable:
+                        continue
+                    for s2_ in blk2_["stmts"]:
+                        if s2_["k"] != "assign":
+                            continue
+                        rv2 = s2_["rv"]
+                        if ("ref" in rv2 and rv2.get("mut") and rv2["ref"]["l"] in roots) or \
+                                ("rawptr" in rv2 and rv2["rawptr"]["l"] in roots) or \
+                                (s2_["place"]["l"] in roots and s2_["place"]["proj"]):
+                            problems.append("the iterator's copy of the board is modified (mutably borrowed or written) before it is "
+                                            "stored: the flop is no longer carried in the given order")
+                            break
     else:
         raise U(rule, "the iterator is not built by a struct literal", fn)
     if problems:
@@ -673,6 +704,139 @@ def rule_ctor(ctx, M):
     else:
         ctx.violation(rule, f"{M.new.path}|stored-inputs", "new() does not store (a clone of) the board and the players it was given",
                       fn=M.new.path, file=M.new.file, line=M.new.line)
+
+
+def rule_deck(ctx, M):
+    """the deck the turn and river are drawn from = every card (all ranks x all suits) that is not on the evaluator's board"""
+    rule = "C02.R-deck"
+    ctx.rule(rule, "the deck receives Card::new(rank, suit) for every rank x suit exactly when that card is not on the evaluator's board")
+    fn = M.ctor
+    pr = P.Prov(fn)
+    F = M.F
+    players_field, board_field = F_evaluator_fields(M)
+    ret = pr.local(0)
+    if not (ret[0] == "agg" and ret[1].startswith("adt:" + M.iter_ty)):
+        raise U(rule, "the iterator is not built by a struct literal", fn)
+    deck_t = ret[2][M.f_deck]
+    pushes = [(bi, t) for bi, t in fn.calls() if bi in fn.cfg.reachable and t["callee"].get("name") == "push"
+              and fn.local_ty((t["args"][0].get("move") or t["args"][0].get("copy"))["l"]) == f"&mut std::vec::Vec<{evalmodel.CARD}>"]
+    if len(pushes) != 1:
+        raise U(rule, f"{len(pushes)} pushes into a Vec<Card> in the iterator constructor (expected the one filling the deck)", fn)
+    pb, pt = pushes[0]
+    recv = P.strip(pr.operand(pt["args"][0]))
+    problems = []
+    if not any(sub == recv for sub in P.walk(deck_t)):
+        problems.append("the vector being filled is not the one stored as the deck")
+    card = P.strip(pr.operand(pt["args"][1]))
+    fl = L.for_loops(fn, pr)
+    encl = sorted([lp for lp in fl if pb in lp.body], key=lambda lp: -len(lp.body))
+    ok_card = False
+    if card[0] == "call" and card[1] == evalmodel.CARD + "::new" and len(card[2]) == 2 and len(encl) == 2:
+        r_t, s_t = P.strip(card[2][0]), P.strip(card[2][1])
+        by_item = {P.strip(lp.item_term): lp for lp in encl}
+        lr, ls = by_item.get(r_t), by_item.get(s_t)
+        if lr is not None and ls is not None and lr is not ls:
+            def whole(lp, ctor_path):
+                src, chain = lp.chain()
+                s_ = P.strip(src, calls=False)
+                return s_[0] == "call" and s_[1] == ctor_path and all(c.rsplit("::", 1)[-1] == "into_iter" for c in chain)
+            ok_card = whole(lr, "card::rank_range::RankRange::all") and whole(ls, "card::suit_range::SuitRange::all")
+            from rules import runpass
+            if runpass.early_exits(fn, lr) or runpass.early_exits(fn, ls):
+                problems.append("the rank x suit loops can stop early: cards are missing from the deck")
+    if not ok_card:
+        problems.append("the pushed card is not Card::new(rank, suit) for rank in RankRange::all() and suit in SuitRange::all()")
+    # the guard: `card is not on the board`
+    board_terms = (("field", ("deref", ("param", 1)), board_field), ("field", ("param", 1), board_field))
+
+    def is_board(t_):
+        s_ = P.strip(t_)
+        while s_[0] == "cast":
+            s_ = P.strip(s_[2])
+        return s_ in board_terms
+
+    def closure_fn(c_):
+        c_ = P.strip(c_, calls=False)
+        if c_[0] == "agg" and c_[1].startswith("closure:"):
+            g_ = F.fns.get(c_[1][len("closure:"):])
+            if g_ is not None and not g_.cfg.has_loops() and not any(b_["term"]["k"] == "switch" for i_, b_ in enumerate(g_.blocks) if i_ in g_.cfg.reachable):
+                return c_, g_
+        return None, None
+
+    def captured(c_, t_):
+        t_ = P.strip(t_)
+        if t_[0] == "field" and P.strip(t_[1]) == ("param", 1) and t_[2] < len(c_[2]):
+            return P.strip(c_[2][t_[2]])
+        return None
+    guard_edges = []
+    for b, lab, truth, term in I.bool_edges(fn, pr):
+        tt, tr = term, truth
+        while tt[0] == "un" and tt[1] == "Not":
+            tt, tr = tt[2], not tr
+        if tt[0] != "call":
+            continue
+        nm = tt[1].rsplit("::", 1)[-1]
+        if nm == "contains" and len(tt[2]) == 2 and is_board(tt[2][0]) and not tr:
+            # !board.contains(&Some(card))
+            a_ = P.strip(tt[2][1])
+            if a_[0] == "agg" and a_[1].endswith("Option::Some") and P.strip(a_[2][0]) == card:
+                guard_edges.append((b, lab))
+        if nm == "all" and len(tt[2]) == 2 and tr:
+            src_, chain_ = L.iterator_chain(tt[2][0])
+            names_ = [c_.rsplit("::", 1)[-1] for c_ in chain_]
+            clo, g_ = closure_fn(tt[2][1])
+            if not is_board(src_) or g_ is None:
+                continue
+            mode = None
+            if [n_ for n_ in names_ if n_ not in ("iter", "into_iter")] == ["flatten"]:
+                mode = "card"
+            elif [n_ for n_ in names_ if n_ not in ("iter", "into_iter")] == ["filter"]:
+                # filter(|c| c.is_some())
+                flt = [s_ for s_ in P.walk(tt[2][0]) if s_[0] == "call" and s_[1].rsplit("::", 1)[-1] == "filter"]
+                c2, g2 = closure_fn(flt[0][2][1]) if flt else (None, None)
+                if g2 is not None:
+                    r2 = P.strip(P.Prov(g2).local(0), calls=False)
+                    if r2[0] == "call" and r2[1].rsplit("::", 1)[-1] == "is_some" and P.strip(r2[2][0]) == ("param", 2):
+                        mode = "some"
+            elif not [n_ for n_ in names_ if n_ not in ("iter", "into_iter")]:
+                mode = "option"
+            if mode is None:
+                continue
+            rel = I.norm_rel(P.Prov(g_).local(0), True)
+            if rel is None or rel[0] != "Ne":
+                continue
+            okc = False
+            for (u, v) in ((rel[1], rel[2]), (rel[2], rel[1])):
+                cap = captured(clo, v)
+                us = P.strip(u)
+                if mode == "card" and us == ("param", 2) and cap == card:
+                    okc = True
+                if mode == "some" and us[0] == "call" and us[1].rsplit("::", 1)[-1] in ("unwrap", "expect") and P.strip(us[2][0]) == ("param", 2) and cap == card:
+                    okc = True
+                if mode == "option" and us == ("param", 2):
+                    vs = P.strip(v)
+                    if vs[0] == "agg" and vs[1].endswith("Option::Some") and captured(clo, vs[2][0]) == card:
+                        okc = True
+            if okc:
+                guard_edges.append((b, lab))
+    if len(encl) == 2:
+        inner = encl[-1]
+        if not guard_edges or not I.guarded_by(fn, pb, guard_edges, start=inner.header):
+            problems.append("the card is pushed without the test `not on the evaluator's board` (flop cards stay in the deck, or the "
+                            "test looks at something else)")
+        for (b, lab) in guard_edges:
+            tgt = [t_ for l_, t_ in fn.cfg.succ_edges[b] if l_ == lab][0]
+            tails = [t_ for (t_, h_) in fn.cfg.back_edges() if h_ == inner.header]
+            r_ = I.reachable_avoiding(fn, [], start=tgt, removed_blocks=[pb])
+            if any(t_ in r_ for t_ in tails):
+                problems.append("a card that is not on the board is not always pushed: the deck misses cards")
+                break
+    if problems:
+        ctx.violation(rule, f"{fn.path}|deck|{problems[0].split(':')[0].replace(' ', '-')[:50]}", "; ".join(problems[:3]), fn=fn.path,
+                      file=fn.file, line=fn.blocks[pb]["line"], construct="deck construction")
+    else:
+        ctx.ok(rule, {"deck": "for rank in all, suit in all: push Card::new(rank, suit) iff not on evaluator.board", "stored_as": "iterator.deck"},
+               sample=True)
 
 
 def F_evaluator_fields(M):
@@ -700,7 +864,7 @@ def run(ctx):
     for f in (lambda: rule_used_set(ctx, M, fn, pr, turn_f, river_f),
               lambda: rule_product_board(ctx, M, fn, pr, turn_f, river_f),
               lambda: rule_odometer_any(ctx, M, fn),
-              lambda: rule_ctor(ctx, M)):
+              lambda: rule_ctor(ctx, M), lambda: rule_deck(ctx, M)):
         try:
             f()
         except Unrecognised as e:
